@@ -701,6 +701,9 @@ func (i *importer) importMuxSignal(dbcMuxSig *dbc.Signal, dbcMsgID uint32, muxed
 
 	if muxedEndBit > 0 {
 		groupSize = muxedEndBit - muxSigStartBit - muxSigSize
+	} else {
+		// a multiplexer without multiplexed signals, the file does not tell the size of its groups
+		groupSize = 1
 	}
 
 	muxSig, err := NewMultiplexerSignal(dbcMuxSig.Name, calcValueFromSize(muxSigSize), groupSize)
